@@ -139,6 +139,17 @@ func buildClientModel(p *Prog, ro *Roles) *clientModel {
 			}
 		}
 	}
+	if cm.Recv == nil {
+		// the frame read may be written in a helper of the receive function (`c.readReply(ctx)`)
+		for _, a := range recvCands {
+			v := p.Inlined(a, keepAPI)
+			for _, cs := range callsIn(v, false) {
+				if isProtoReadBytes(cs) {
+					cm.Recv = a
+				}
+			}
+		}
+	}
 	// the receive function is analysed in its inlined view (helpers of package varlink such as a frame type's
 	// payload() are part of it)
 	if cm.Recv != nil {
